@@ -66,12 +66,13 @@ theorem after_facts (v : Variant) (n : Nat) (s : Cpu) (z0 : ZX) :
     devState z = (log v n s z0).foldl DevState.step (devState z0) ∧
     (C04Sys.Good z0.ctl → C04Sys.Good z.ctl ∧
       pagState z = (log v n s z0).foldl PagState.step (pagState z0) ∧
-      ∀ e ∈ log v n s z0, Stamped z0.ctl.kind e) := by
+      ∀ e ∈ log v n s z0, Stamped z0.ctl.kind e) ∧
+    ReadsSee (devState z0) (log v n s z0) := by
   intro z
   have h := after_ext v n s z0
   have hz : (after v n s z0).zx = z := (machine_is_zx_run v n s z0).2
   rw [← hz]
-  exact ⟨h.kbd, h.earIn, h.kind, h.recd, h.dev, h.good⟩
+  exact ⟨h.kbd, h.earIn, h.kind, h.recd, h.dev, h.good, h.sees⟩
 
 /-- no program changes the configuration the ports are decoded with: machine kind, joystick, mouse -/
 theorem cfg_constant (v : Variant) (n : Nat) (s : Cpu) (z0 : ZX) : (Z80.run v n (s, z0)).2.cfg = z0.cfg := by
@@ -224,7 +225,7 @@ theorem writes_change_only_their_device (v : Variant) (n : Nat) (s : Cpu) (z0 : 
     (C04Sys.Good z0.ctl →
       pagState z = (log v n s z0).foldl PagState.step (pagState z0) ∧ C04Sys.Good z.ctl) := by
   intro z
-  obtain ⟨_, _, _, _, hd, hg⟩ := after_facts v n s z0
+  obtain ⟨_, _, _, _, hd, hg, _⟩ := after_facts v n s z0
   exact ⟨hd, fun g => ⟨(hg g).2.1, (hg g).1⟩⟩
 
 theorem ula_fold (l : List IoEntry) (d : DevState) :
@@ -369,6 +370,20 @@ theorem ay_file_is_c18_fold (v : Variant) (n : Nat) (s : Cpu) (z0 : ZX) (sched :
   rw [e]
   exact ⟨m1.trans c1, m2.trans c2⟩
 
+/-- **A read routed to the AY sees exactly the earlier writes of the log.** Every logged `IN` that reached
+the AY returned the register which the writes logged before it had selected, with the contents they had
+given it (the fold of the device state machine over the entries in front of it) — so a logged AY read
+is a read of the device the earlier AY writes went to, and of nothing else. -/
+theorem ay_reads_see_earlier_writes (v : Variant) (n : Nat) (s : Cpu) (z0 : ZX) :
+    ReadsSee (devState z0) (log v n s z0) ∧
+    ∀ l1 l2 p val c t l sm, log v n s z0 = l1 ++ IoEntry.rd p val .ay c t l sm :: l2 →
+      val = (l1.foldl DevState.step (devState z0)).ayRegs (l1.foldl DevState.step (devState z0)).ayReg := by
+  have h := (after_facts v n s z0).2.2.2.2.2.2
+  refine ⟨h, ?_⟩
+  intro l1 l2 p val c t l sm e
+  rw [e] at h
+  exact ((readsSee_append _ _ _).mp h).2.1
+
 /-! ### 3. unclaimed ports show the floating bus -/
 
 /-- the byte the ULA has on the bus at frame T-state `t` of a machine of kind `k` whose CPU-visible
@@ -440,7 +455,7 @@ theorem unclaimed_read_is_floating_bus (v : Variant) (n : Nat) (s : Cpu) (z0 : Z
       (Bus.readIo p z).1 = floatingBus z0.ctl.kind z.ctl.readInternal (sampleClock z p) ∧
       (C04Sys.Good z0.ctl → sampleClock z p =
         (Spec.opTime z0.ctl.kind z.ctl.port7ffd (C05.total z.ctl) (.io p) - 1) % Spec.frameLen z0.ctl.kind)) := by
-  obtain ⟨_, _, hkind, hrec, _, hgood⟩ := after_facts v n s z0
+  obtain ⟨_, _, hkind, hrec, _, hgood, _⟩ := after_facts v n s z0
   constructor
   · intro p val d clock time latch sample he hn
     have hr := hrec _ he
@@ -607,6 +622,19 @@ example : let x := after .hw 8 { pc := 0x8000 } (demo .k48 false false)
 /-- with a Kempston mouse attached 0x051F (A0 = 1, A5 = 0, A8 = A10 = 1) is the mouse's Y register -/
 example : (log .hw 3 { pc := 0x8000 } (demo .k128 false true)).getLast? =
     some (.rd 0x051F 0xFF .mouseY 25 25 0x00 28) := by
+  decide +kernel
+
+/-- the AY program of Props/C18Sys.lean (select register 8 through 0xFFFD, write 0x0F through 0xBFFD)
+followed by `LD B,0xFF ; IN A,(C)` — read the register back through 0xFFFD -/
+def progAy : List (BitVec 8) := C18Sys.prog 8 ++ [0x06, 0xFF, 0xED, 0x78]
+
+/-- the AY ports at work: select, data write, and a read that returns what the two writes left in the
+selected register; the AY port history inside the log is the C18 history of the program -/
+example : let l := log .hw 8 { pc := 0x8000 } (C18Sys.load (ZX.new .k128 false false) 0x8000 progAy)
+    l = [.wr 0xFFFD 0x08 .aySelect 25 25 0x00, .wr 0xBFFD 0x0F .ayData 51 51 0x00,
+         .rd 0xFFFD 0x0F .ay 70 70 0x00 73] ∧
+    ayOps l = [.select 0x08, .write 0x0F] ∧
+    ((l.take 2).foldl DevState.step (devState (ZX.new .k128 false false))).ayReg = 8 := by
   decide +kernel
 
 /-- `LD A,0xFF ; IN A,(0xFF)` — a read of the unclaimed port 0xFFFF -/
